@@ -140,6 +140,16 @@ static void cmd_ucr(int lo, int hi)
 		} else {
 			printf(" -:-:- -:-:- -:-:-");
 		}
+		/* an ASCII letter equal to the code point's low byte, ignoring case, must not match the character */
+		if (c >= 128 && isalpha(c & 0xff) && (c & 0xff) < 128) {
+			char ln2[16];
+			sprintf(ln2, "<%s>\n", ch);
+			sprintf(pat, "%c+", tolower(c & 0xff));
+			r1 = find1(pat, 1, ln2, 0, g);
+			printf(" %d:%d:%d", r1, g[0], g[1]);
+		} else {
+			printf(" -:-:-");
+		}
 		printf("\n");
 	}
 	printf("END\n");
